@@ -56,7 +56,7 @@ Qed.
 
 Lemma auth_reject b : 32 <= lenN b -> takeN 32 b <> H -> auth_parse H b = Reject E_AUTH.
 Proof.
-  intros Hl Hne. rewrite auth_parse_eq.
+  clear Hlen. intros Hl Hne. rewrite auth_parse_eq.
   destruct (N.leb_spec 32 (lenN b)); [|lia].
   rewrite (bytes_eqb_neq _ _ Hne). reflexivity.
 Qed.
@@ -66,7 +66,7 @@ Lemma auth_accept_only_hash b r : auth_parse H b = Accept tt r -> takeN 32 b = H
 Proof. intros Hx. apply auth_iff in Hx. tauto. Qed.
 
 Lemma auth_short b : lenN b < 32 -> auth_parse H b = NeedMore.
-Proof. intros Hl. rewrite auth_parse_eq. destruct (N.leb_spec 32 (lenN b)); [lia | reflexivity]. Qed.
+Proof. clear Hlen. intros Hl. rewrite auth_parse_eq. destruct (N.leb_spec 32 (lenN b)); [lia | reflexivity]. Qed.
 
 Lemma auth_exact_only : exact_only E_EOF (auth_prog H).
 Proof.
